@@ -85,6 +85,7 @@ class Context:
         self.forced = None  # optional list of forced truth values (path exploration)
         self._aux_cache = {}
         self.angles = {}
+        self.alg = {}  # vid -> (q, Poly): eager rewrite v^q -> Poly (e.g. s^2 -> 1 - c^2), applied after products
         import os, random
 
         self._rng = random.Random(int(os.environ.get("VERIF_SEED", "0") or 0) * 7919 + 17)
@@ -200,6 +201,40 @@ def as_sym(x):
     return Sym(Poly.const(f))
 
 
+def _alg_reduce(p):
+    """eager normal form modulo the registered algebraic relations (v^q -> poly)"""
+    alg = CTX.alg
+    if not alg:
+        return p
+    guard = 0
+    while guard < 20:
+        guard += 1
+        hit = None
+        for m in p.t:
+            for v, e in m:
+                if v in alg and e >= alg[v][0]:
+                    hit = v
+                    break
+            if hit is not None:
+                break
+        if hit is None:
+            return p
+        q, xp = alg[hit]
+        co = p.coeffs_in(hit)
+        newp = Poly()
+        vp = Poly.var(hit)
+        for e, cf in co.items():
+            k, r = divmod(e, q)
+            term = cf
+            if k:
+                term = term.mul(xp.pow(k))
+            if r:
+                term = term.mul(vp.pow(r))
+            newp = newp.add(term)
+        p = newp
+    return p
+
+
 class Sym:
     __slots__ = ("n", "d", "_sh")
 
@@ -305,7 +340,7 @@ class Sym:
                 return SymMatrix.from_any(o0) * self
             return NotImplemented
         if self.d.is_const() and o.d.is_const():
-            return Sym(self.n.mul(o.n))
+            return Sym(_alg_reduce(self.n.mul(o.n)))
         n1, d1, n2, d2 = self.n, self.d, o.n, o.d
         # cross cancellation
         if not d2.is_const() and not n1.is_const() and d2.nterms() <= 200 and n1.nterms() <= 2000:
@@ -316,7 +351,7 @@ class Sym:
             q = n2.exact_div(d1, 4000)
             if q is not None:
                 n2, d1 = q, _P1
-        return Sym.make(n1.mul(n2), d1.mul(d2))
+        return Sym.make(_alg_reduce(n1.mul(n2)), _alg_reduce(d1.mul(d2)))
 
     __rmul__ = __mul__
 
@@ -326,7 +361,7 @@ class Sym:
             return NotImplemented
         if o.n.is_zero():
             raise ZeroDivisionError("division by a symbolic value that is identically zero")
-        return Sym.make(self.n.mul(o.d), self.d.mul(o.n))
+        return Sym.make(_alg_reduce(self.n.mul(o.d)), _alg_reduce(self.d.mul(o.n)))
 
     def __rtruediv__(self, o):
         o = self._coerce(o)
@@ -352,10 +387,10 @@ class Sym:
         if f.denominator == 1:
             k = int(f)
             if k >= 0:
-                return Sym.make(self.n.pow(k), self.d.pow(k))
+                return Sym.make(_alg_reduce(self.n.pow(k)), _alg_reduce(self.d.pow(k)))
             if self.n.is_zero():
                 raise ZeroDivisionError
-            return Sym.make(self.d.pow(-k), self.n.pow(-k))
+            return Sym.make(_alg_reduce(self.d.pow(-k)), _alg_reduce(self.n.pow(-k)))
         # rational power p/q: r > 0, r^q = self, value r^p  (requires self > 0, recorded)
         p, q = f.numerator, f.denominator
         r = root(self, q)
